@@ -127,6 +127,9 @@ def tagValues (o : Oracles) (c : Ctx) (d : TraceDb) (e : AttrExp) (key : Bytes) 
 
 def bytesLeB (a b : Bytes) : Bool := decide (a ≤ b)
 
+/-- the strings of one column of a result -/
+def colStrs (t : Table) (col : String) : List Bytes := t.filterMap (fun r => match r.get col with | .str s => some s | _ => none)
+
 /-- with a positive limit: ascending, the first `limit`; otherwise any order -/
 def tagsResult (c : Ctx) (l : List Bytes) : List Bytes :=
   if c.limit > 0 then (sortBy bytesLeB l).take c.limit.toNat else l
